@@ -137,7 +137,59 @@ func c01() {
 				}
 			}
 		}
+		eventsBeforeEdits := events
+		// the same Policy value edited in place and compiled again: the filter must follow the policy as it is now
+		for edit := 0; edit < 2 && len(p.Syscalls) > 0; edit++ {
+			gi := r.Intn(len(p.Syscalls))
+			what := ""
+			switch {
+			case len(p.Syscalls[gi].Names) > 0 && edit == 0:
+				inGroup := map[string]bool{}
+				for _, n := range p.Syscalls[gi].Names {
+					inGroup[n] = true
+				}
+				for k := 0; k < 50; k++ {
+					n := t.Names[r.Intn(len(t.Names))]
+					if !inGroup[n] {
+						at := r.Intn(len(p.Syscalls[gi].Names))
+						what = fmt.Sprintf("group %d: name %q replaced in place by %q", gi, p.Syscalls[gi].Names[at], n)
+						p.Syscalls[gi].Names[at] = n
+						break
+					}
+				}
+			default:
+				old := p.Syscalls[gi].Action
+				p.Syscalls[gi].Action = vlib.NamedActions[r.Intn(len(vlib.NamedActions))]
+				what = fmt.Sprintf("group %d: action %#x changed in place to %#x", gi, uint32(old), uint32(p.Syscalls[gi].Action))
+			}
+			if what == "" {
+				continue
+			}
+			spec2 := vlib.SpecOf(p, t.Name)
+			c2 := vlib.Compile(p, t) // the very same *Policy
+			if !c2.OK() {
+				break
+			}
+			ref2 := vlib.NewRef(spec2.Policy(), t)
+			run.Count("recompilations_after_in_place_edit", 1)
+			for _, nr := range vlib.NrClasses(c2, ref2) {
+				if t.X32Guard && nr >= vlib.X32Bit {
+					continue
+				}
+				e := vlib.Event{NR: nr, Arch: t.ID, Args: vlib.FillArgs(r, pool)}
+				w := e.Words(false)
+				tr, err := c2.RunBoth(&w, nil, false)
+				want, _ := ref2.Decide(e)
+				events++
+				if err != nil || tr.Ret != want {
+					run.Violation("stale-after-in-place-edit", fmt.Sprintf("arch %s: after %s and compiling the same Policy value again, event %v gets %#x, the edited policy says %#x", t.Name, what, e, tr.Ret, want),
+						map[string]any{"check": "C01", "policy_after_edit": spec2, "policy_before_edit": spec, "edit": what, "event": e, "expected": want, "case": i})
+					return
+				}
+			}
+		}
 		run.Count("events", events)
+		run.Count("events_after_in_place_edits", events-eventsBeforeEdits)
 		g, tot := cov.Covered(c.Raw)
 		mu.Lock()
 		for k, v := range lg {
@@ -187,5 +239,5 @@ func c01() {
 		run.Require("decided_by_group_ge2", 1)
 	}
 	run.Finish(run.Counter("events"), int64(len(distinctProgs)),
-		"name-only policies (catalogue + PRNG: 1..8 and 9..150 groups, sizes incl. 0/1/253..258/half/whole table, table splits) compiled by the real compiler; every class of the nr partition induced by program constants and policy numbers x 2 adversarial argument fills, run through E1 (raw+typed) and compared with E2; distinct = distinct (program length, groups, return set) shapes")
+		"name-only policies (catalogue + PRNG: 1..8 and 9..150 groups, sizes incl. 0/1/253..258/half/whole table, table splits) compiled by the real compiler; every class of the nr partition induced by program constants and policy numbers x 2 adversarial argument fills, run through E1 (raw+typed) and compared with E2; then the same Policy value is edited in place (name replaced, action changed), compiled again and re-judged; distinct = distinct (program length, groups, return set) shapes")
 }
